@@ -369,7 +369,13 @@ def impl_cycle_hypotheses(w):
     shaped = all(d.pre_length == depth[src] and len(d.tiers) == depth[dst] for dst in sims for src, d in dst.input_delays.items())
     cuts = [d.cutoff for dst in sims for d in dst.input_delays.values()]
     const = all(c == (cuts[0] if cuts else 1) for c in cuts)
-    return f"shaped={str(shaped).lower()} nodup=true const={str(const).lower()}"
+    # ... and of C07.ancestor_table_is_minimum, on the trigger tables
+    trigs = [(src, dst, d) for src in sims for lst in src.triggers.values() for (dst, d) in lst]
+    tshaped = all(d.pre_length == depth[src] and len(d.tiers) == depth[dst] and d.cutoff <= d.pre_length for src, dst, d in trigs)
+    tcuts = [d.cutoff for _, _, d in trigs]
+    tconst = all(c == (tcuts[0] if tcuts else 1) for c in tcuts)
+    return (f"shaped={str(shaped).lower()} nodup=true const={str(const).lower()} "
+            f"tshaped={str(tshaped).lower()} tconst={str(tconst).lower()}")
 
 
 def cycle_result(w):
@@ -514,7 +520,9 @@ def suite_cycles(rng: random.Random, tier: str) -> Suite:
             # the hypotheses of the completeness theorem hold for the tables connect() builds (shaped, dict), and the
             # executable uniformity check says the same on both sides
             hyp = impl_cycle_hypotheses(w)
-            s.add("w.cychyp", hyp, "hyp:" + ("theorem applies (exact_of_checks)" if hyp.endswith("const=true") else "Uniform not decided by the executable check"))
+            s.add("w.cychyp", hyp, "hyp:" + ("C06.exact_of_checks applies" if " const=true" in hyp else "Uniform not decided by the executable check") +
+                  "; " + ("C07.ancestor_table_of_checks applies" if hyp.endswith("tconst=true") and "tshaped=true" in hyp
+                          else "UniformT not decided by the executable check"))
         finally:
             close_world(w)
     s.post_model = lambda a: "cycle" if a.startswith("cycle ") else a
